@@ -178,6 +178,50 @@ func genDoc(t *rapid.T) (Doc, string) {
 	return d, kind
 }
 
+// genChain draws a dependency chain that needs one pass per link: tagged relation r1 -> r2 -> ... -> r_d -> way -> nodes,
+// listed in reverse dependency order (deepest first), so that in every pass exactly one object is stored and every
+// other worker of the pool ends the pass having stored nothing. Plus a few unrelated elements.
+func genChain(t *rapid.T) (Doc, Keep) {
+	var d Doc
+	nn := rapid.IntRange(2, 5).Draw(t, "cn")
+	for i := 0; i < nn; i++ {
+		d.Nodes = append(d.Nodes, DNode{ID: int64(i + 1), Lat: float64(i), Lon: float64(i)})
+	}
+	extra := rapid.IntRange(0, 6).Draw(t, "extra")
+	for i := 0; i < extra; i++ {
+		d.Nodes = append(d.Nodes, DNode{ID: int64(nn + i + 1), Lat: 9, Lon: 9, Tags: []Tag{{"name", "x"}}})
+	}
+	w := DWay{ID: 1}
+	for i := 0; i < nn; i++ {
+		w.Refs = append(w.Refs, int64(i+1))
+	}
+	d.Ways = []DWay{w}
+	depth := rapid.IntRange(1, 8).Draw(t, "depth")
+	key := rapid.SampledFrom(tagKeys).Draw(t, "ck")
+	val := rapid.SampledFrom(tagVals).Draw(t, "cv")
+	for i := 0; i < depth; i++ {
+		r := DRel{ID: int64(i + 1)}
+		if i == 0 {
+			r.Tags = []Tag{{key, val}}
+		}
+		if i+1 < depth {
+			r.Members = []DMember{{"relation", int64(i + 2)}}
+		} else {
+			r.Members = []DMember{{"way", 1}}
+		}
+		d.Rels = append(d.Rels, r)
+	}
+	// deepest first: nodes, the way, then r_d ... r_1 would let everything resolve in d+2 passes of one store each
+	for i := range d.Nodes {
+		d.Order = append(d.Order, Elem{"n", i})
+	}
+	d.Order = append(d.Order, Elem{"w", 0})
+	for i := depth - 1; i >= 0; i-- {
+		d.Order = append(d.Order, Elem{"r", i})
+	}
+	return d, Keep{Kind: "tags", Tags: map[string][]string{key: {val}}}
+}
+
 func gen(t *rapid.T) Case {
 	var c Case
 	if vkit.Tier() == "thorough" && rapid.IntRange(0, 499).Draw(t, "pbf") == 0 {
@@ -191,7 +235,7 @@ func gen(t *rapid.T) Case {
 	c.Doc, c.OrderKind = genDoc(t)
 	c.Keep = genKeep(t, true)
 	c.KeepTags = rapid.Bool().Draw(t, "keeptags")
-	c.Engine = rapid.SampledFrom([]string{"sched", "sched", "sched", "plain", "filter"}).Draw(t, "engine")
+	c.Engine = rapid.SampledFrom([]string{"sched", "sched", "sched", "sched", "sched", "sched", "plain", "plain", "filter", "filter", "stress"}).Draw(t, "engine")
 	c.Procs = rapid.SampledFrom([]int{1, 2, 3, 4, 8}).Draw(t, "procs")
 	switch c.Engine {
 	case "sched":
@@ -201,6 +245,15 @@ func gen(t *rapid.T) Case {
 	case "plain":
 		c.Repeat = rapid.IntRange(1, 3).Draw(t, "repeat")
 		c.Procs = rapid.SampledFrom([]int{1, 2, 4, 8, 16}).Draw(t, "procs2")
+	case "stress":
+		// real threads, no hook: a pool much wider than the work, many repetitions; half of the documents are
+		// one-store-per-pass chains (every pass ends with all but one worker having stored nothing)
+		if rapid.Bool().Draw(t, "chain") {
+			c.Doc, c.Keep = genChain(t)
+			c.OrderKind = "chain"
+		}
+		c.Repeat = rapid.IntRange(20, 60).Draw(t, "repeat2")
+		c.Procs = rapid.SampledFrom([]int{2, 4, 8, 16, 32, 64}).Draw(t, "procs3")
 	case "filter":
 		f := genKeep(t, false)
 		c.Filter = &f
@@ -299,7 +352,7 @@ func run(c Case) (v vkit.Verdict) {
 		v.Class("selection_depends_on_state")
 	}
 	n := 1
-	if c.Engine == "plain" {
+	if c.Engine == "plain" || c.Engine == "stress" {
 		n = c.Repeat
 	}
 	var data *gosm.Data
@@ -329,6 +382,10 @@ func run(c Case) (v vkit.Verdict) {
 	}
 	if c.Engine == "plain" && stateful && c.OrderKind != "conventional" {
 		v.NonTrivial = true
+	}
+	if c.Engine == "stress" && stateful && c.Procs >= 2 {
+		v.NonTrivial = true
+		v.Class(fmt.Sprintf("stress_procs_%d", c.Procs))
 	}
 	if c.Engine == "filter" {
 		fk := c.Filter.Func()
@@ -396,7 +453,7 @@ func TestProp(t *testing.T) {
 			"relations incl. self and mutual cycles), tags from a 3x3 alphabet, 5% with dangling references; element order conventional, reversed, a drawn permutation, or every way directly after " +
 			"the last node it references; keep = KeepTags (drawn key/value sets incl. empty value lists), KeepBounds (drawn box; objects inside, outside, on the border), KeepAll; keepTags on/off; " +
 			"1-8 workers (GOMAXPROCS). Engines: (sched) the owned scheduler - the pool's workers and reading loop park at the verif hook points and inside the keep function; a drawn choice list picks " +
-			"which enabled entity runs next, so a schedule is a replayable list of integers; (plain) no hook, 1-3 repetitions at GOMAXPROCS 1-16; (filter) Filter(KeepTags|KeepAll) of an extraction; (pbf, thorough only, 1 in 500 cases) the repository's Honolulu extract through ExtractPBF with drawn tag/bounds filters against the model fed by the same scanner's object stream. " +
+			"which enabled entity runs next, so a schedule is a replayable list of integers; (plain) no hook, 1-3 repetitions at GOMAXPROCS 1-16; (stress, 1 case in 11) no hook, 20-60 repetitions at GOMAXPROCS 2-64 of a drawn document or of a one-store-per-pass dependency chain (tagged relation -> ... -> relation -> way -> nodes listed deepest first), for interleavings between the hook points that only real threads produce; (filter) Filter(KeepTags|KeepAll) of an extraction; (pbf, thorough only, 1 in 500 cases) the repository's Honolulu extract through ExtractPBF with drawn tag/bounds filters against the model fed by the same scanner's object stream. " +
 			"Oracle: sequential least-fixed-point model (selected by keep against the set itself, or referenced from the set) computed by naive iteration; id sets and payloads (coordinates, node " +
 			"lists, members, tags iff keepTags) must equal the model for every schedule and worker count; Check() nil when the document has no dangling reference; Filter result = model applied to " +
 			"the extracted data, subset, closed, idempotent. Non-trivial = some object is selected only because of state built earlier (bounds-selected way/relation or >=2 dependency levels) and the " +
